@@ -331,8 +331,9 @@ def check_exit_status(ctx):
                 if n.startswith(("runner.", "the_result.", "suite.", "other_result.")):
                     return [("val", NONE)]
                 return None
-            dom = effects.EffectDomain(classes, attrs={"self.exit": exit_flag, "self.test": SUITE, "self.catchbreak": FALSE}, track=lambda d: d == "sys.exit", oracle=oracle,
-                                       results={"self._get_runner": [RUNNER]}, raises={"sys.exit": [("exc", "SystemExit")]}, inline=False)
+            from . import streamobjects as so
+            dom = so.StreamDomain(classes, accepting=("runner", "the_result", "suite"), attrs={"self": ("self",), "self.exit": exit_flag, "self.test": SUITE, "self.catchbreak": FALSE},
+                                  track=lambda d: d == "sys.exit", oracle=oracle, results={"self._get_runner": [RUNNER]}, raises={"sys.exit": [("exc", "SystemExit")]})
             res = [r for r in effects.run(ctx, dom, rt, tp) if not (r.kind == "exc" and r.value != ("exc", "SystemExit"))]
             seen_ = {tuple((e[0], e[1]) for e in effects.calls(r, "sys.exit")) for r in res}
             want = {(("sys.exit", (FALSE if verdict == TRUE else TRUE,)),)} if exit_flag == TRUE else {()}
